@@ -690,7 +690,7 @@ def main(argv):
         "restricted / registered types (C20), dataclasses, class types, Callable, Type are outside this grammar",
         "the class of the exception that rejects an input is not compared (C03); a non-ArgumentError exception counts as a rejection and is counted in coverage.non_argument_errors",
     ]
-    workers = int(os.environ.get("VERIF_TLC_WORKERS", "16"))
+    workers = int(os.environ.get("VERIF_TLC_WORKERS", "4" if tier == "quick" else "16"))  # quick: fewer workers cost fewer CPU seconds
 
     # ---- MC: the design-level check, and the cases to replay
     cfgname = f"MC_Types_{tier}"
